@@ -58,7 +58,11 @@ CLASSES = {
     'notif-long': (('await-open', 'openconfirm', 'established'), None),
     'notif-unknown-code': (('await-open', 'openconfirm', 'established'), None),
     'notif-short': (('await-open', 'openconfirm', 'established'), None),
+    'notif-badlen': (('await-open', 'openconfirm', 'established'), None),
 }
+# errors RFC 4271 6.1 / 6.2 / 6.6 leave no choice about: the connection is closed with a NOTIFICATION
+MUST_CLOSE = {'hdr-marker', 'hdr-short', 'hdr-long', 'hdr-typelen', 'hdr-unknown-type', 'open-version', 'open-peer-as', 'open-id-zero', 'open-hold-1', 'open-hold-2',
+              'unexpected-keepalive', 'unexpected-update', 'unexpected-refresh', 'unexpected-open'}
 STATE_SUB = {'await-open': 1, 'openconfirm': 2, 'established': 3}
 
 
@@ -85,6 +89,15 @@ def grid(tier: str):
                         'sessions': [{'state': st, 'cls': cls, 'deliv': deliv[0], 'gap': deliv[1], 'delay': 0.05, 'race': race, 'arg': 2}],
                     }
                 )  # fmt: skip
+    for cls in ('open-hold-1', 'open-hold-2', 'notif-badlen', 'hdr-short'):
+        for arg in range(6):
+            i += 1
+            plans.append(
+                {
+                    'micro_seed': 3000 + i, 'knobs': {'tick': 0.002, 'drift': 0.0, 'wall_step': 0.0}, 'ibgp': False, 'hold': 0 if cls.startswith('open-') else 6, 'openwait': 4,
+                    'sessions': [{'state': 'await-open', 'cls': cls, 'deliv': 'whole', 'gap': 0.0, 'delay': 0.05, 'race': 'none', 'arg': arg}],
+                }
+            )  # fmt: skip
     return plans
 
 
@@ -100,7 +113,7 @@ def generate(rng, tier: str, index: int) -> dict:
             }
         )  # fmt: skip
     return {
-        'micro_seed': rng.randint(1, 1 << 48), 'knobs': knobs(rng), 'ibgp': rng.chance(0.3), 'hold': rng.choice([3, 6, 9]),
+        'micro_seed': rng.randint(1, 1 << 48), 'knobs': knobs(rng), 'ibgp': rng.chance(0.3), 'hold': rng.choice([0, 3, 6, 9]),
         'openwait': rng.choice([3, 5, 8]), 'sessions': sessions,
     }  # fmt: skip
 
@@ -168,6 +181,9 @@ def injection(spec: dict, spk: Speaker, sess, plan) -> bytes | None:
         return R.notification(99, 7, b'x')
     if cls == 'notif-short':
         return R.message(R.NOTIFICATION, bytes([6]), length=20)
+    if cls == 'notif-badlen':
+        ln = [18, 0, 5000, 19, 4097, 65535][a % 6]
+        return R.message(R.NOTIFICATION, bytes([6, 2]) + b'x' * 8, length=ln)
     return None  # hold-expiry, openwait-expiry, teardown: not a message
 
 
@@ -321,6 +337,8 @@ def judge(w, rec, probes):
         return None
     if rec.get('survived'):
         probes[f'survived:{cls}@{state}'] = probes.get(f'survived:{cls}@{state}', 0) + 1
+        if cls in MUST_CLOSE:
+            return viol('C10/error-not-answered', f'{where}: RFC 4271 requires the session to be closed with NOTIFICATION {expected}; 25 s later it was still open and nothing had been sent', cls=cls, state=state)
         return None
     if got is None:
         if spec['race'] != 'none':
